@@ -455,6 +455,32 @@ func paceJudge(sc paceScenario, res *paceResult) {
 	}
 	res.counters["dials"] += int64(nd)
 	res.counters["resets"] += int64(len(resets))
+	// nLoOf(k): failures surely counted at failure k since the last success / possible reset
+	nLoOf := func(k int) int {
+		n := 0
+		for j := k - 1; j >= 0; j-- {
+			if S[j] != none || F[j] == none || maybeIn(F[j], F[k]) {
+				break
+			}
+			n++
+		}
+		return n
+	}
+	// cutShort[j]: the wait after failure j ended before even the weakest lower
+	// bound while a reset touches it.  Correct code can end a back-off early only
+	// through the reset, so the reset took effect inside that wait and the
+	// failure count was zero when attempt j+1 started.
+	cutShort := make([]bool, nd)
+	for j := 0; j+1 < nd; j++ {
+		if S[j] != none || F[j] == none || D[j+1] < F[j] || !maybeIn(F[j], D[j+1]) {
+			continue
+		}
+		lo, _ := sc.window(nLoOf(j))
+		if float64(D[j+1]-F[j]) < lo-(lo*1e-9+2) {
+			cutShort[j] = true
+			res.counters["backoffs_cut_short_by_reset"]++
+		}
+	}
 	maxN, postSuccess, lowerN1, inDial, inGap := 0, 0, 0, 0, 0
 	kinds := map[string]bool{}
 	for k := 0; k < nd; k++ {
@@ -483,17 +509,11 @@ func paceJudge(sc paceScenario, res *paceResult) {
 		}
 		gap := float64(D[k+1] - F[k])
 		// n for the lower bound: failures surely counted since the last success / possible reset
-		nLo := 0
-		for j := k - 1; j >= 0; j-- {
-			if S[j] != none || F[j] == none || maybeIn(F[j], F[k]) {
-				break
-			}
-			nLo++
-		}
+		nLo := nLoOf(k)
 		// n for the upper bound: every failure that may still count
 		nHi := 0
 		for j := k - 1; j >= 0; j-- {
-			if S[j] != none || F[j] == none || surelyIn(F[j], D[k]) {
+			if S[j] != none || F[j] == none || surelyIn(F[j], D[k]) || cutShort[j] {
 				break
 			}
 			nHi++
@@ -558,7 +578,7 @@ func paceJudge(sc paceScenario, res *paceResult) {
 
 func TestVerifC20Pacing(t *testing.T) {
 	r := vlib.Start(t, "C20")
-	n := r.N(400, 8000)
+	n := r.N(1500, 30000)
 	const fam = "pacing"
 	for i := 0; i < n; i++ {
 		if !r.Want(fam, i) {
